@@ -1,3 +1,41 @@
-From PV Require Import Queue.Model.
-Theorem placeholder : True. Proof. exact I. Qed.
-Print Assumptions placeholder.
+(* C02 - Queue output is a faithful, chunk-invariant timeline of the notified trials.
+   Property theorems only; every proof is `exact <lemma of Queue/ProofsC02.v>`. *)
+From PV Require Import Queue.Model Queue.Spec Queue.ProofsC02.
+
+(* For every queue class, every stimulus set and EVERY sequence of buffer requests (no pause):
+   the concatenated output is the rendering of the "added" notifications (each stimulus from its
+   notified start for its full length, zero everywhere else), the clock equals the samples emitted,
+   and consecutive trials are separated by exactly the delay of the earlier one. *)
+Theorem C02_timeline : forall p es ch pm ns q out ev,
+  wf_queue p es = true -> forallb (fun n => 0 <=? n) ns = true ->
+  pops all_rep (qinit p es ch pm) ns = Some (q, out, ev) ->
+  out = render es (added_of ev) (sumZ ns) /\ q_samples q = sumZ ns /\ spacing_ok es (added_of ev) = true.
+Proof. exact timeline. Qed.
+Print Assumptions C02_timeline.
+
+(* Chunk invariance: from any state reached by requests, one request for a+b samples gives the same
+   output, the same added notifications, the same clock, flags and remaining trials as a then b. *)
+Theorem C02_chunk_invariant : forall p es ch pm pre a b q o0 e0 q1 o1 e1,
+  wf_queue p es = true -> forallb progress_entry es = true ->
+  forallb (fun n => 0 <=? n) (a :: b :: pre) = true ->
+  pops all_rep (qinit p es ch pm) pre = Some (q, o0, e0) ->
+  pop_buffer all_rep q (a + b) = Some (q1, o1, e1) ->
+  exists q2 o2 e2, pops all_rep q [a; b] = Some (q2, o2, e2) /\
+    o1 = o2 /\ added_of e1 = added_of e2 /\ q_samples q1 = q_samples q2 /\ q_empty q1 = q_empty q2 /\
+    map e_trials (q_data q1) = map e_trials (q_data q2).
+Proof. exact chunk_invariant. Qed.
+Print Assumptions C02_chunk_invariant.
+
+(* The request loop terminates and never raises for the deterministic policies (the `while samples > 0`
+   loop may take zero-length steps; fuel exhaustion is the model's non-termination value). *)
+Theorem C02_never_stuck : forall p es ch pm ns,
+  wf_queue p es = true -> forallb progress_entry es = true -> forallb (fun n => 0 <=? n) ns = true ->
+  match p with PRandom | PBlockedRandom => True | _ => pops all_rep (qinit p es ch pm) ns <> None end.
+Proof. exact never_stuck. Qed.
+Print Assumptions C02_never_stuck.
+
+Example C02_ex :
+  let es := [mk_entry 2 3 KArray [1] true; mk_entry 1 2 KGen [0] true] in
+  wf_queue PFifo es = true /\ forallb progress_entry es = true /\
+  timeline_test PFifo es [] [] [2; 5; 0; 9] = true /\ split_test PFifo es [] [] [2] 3 4 = true.
+Proof. vm_compute. repeat split; reflexivity. Qed.
